@@ -39,6 +39,8 @@ CLAIMS["C07"] = ("for every (Value variant, schema shape) pair with an accepting
                  "static analysis: acceptance relation x encoder/decoder wire tables (variant-partitioned path summaries) + dominance rules over MIR")
 CLAIMS["C08"] = ("the resolver's acceptance table (per reader schema shape, which writer-side Value variants Value::resolve_internal can turn into it: 600+ cells) equals the specification's promotion table - every listed promotion has a success path and nothing else resolves; every reader shape dispatches to a resolver; record resolution looks the value up by reader name, then reader aliases, then default, else error, in reader field order; enum resolution uses the reader's symbols and the reader enum's default",
                  "static analysis: variant-partitioned path summaries of the resolver over MIR vs a specification table + call/def-use shape rules")
+CLAIMS["C09"] = ("the compatibility checker's verdict table over all schema shape pairs (which of 890 pairs answer Full on every path) cross-checked with the resolver's acceptance table and the decoder's value table: a Full verdict requires an error-free resolver cell; lattice (Full only from Full & Full); mutual_read evaluates both directions unconditionally; the specification's safe steps (numeric promotions, string/bytes, self-compatibility of unnamed shapes, defaulted reader fields, enum defaults, reader name then alias against writer names) are accepted; memo written only from the inner result keyed by both schemas",
+                 "static analysis: variant-partitioned path summaries of checker x resolver x decoder over MIR + shape rules")
 NA_DEFAULT = "check under construction in this round (see DESIGN.md); not yet claimed"
 
 
